@@ -49,7 +49,12 @@ impl Canon for f64 {
 }
 impl Canon for f32 {
     fn ty(out: &mut Vec<String>) { out.push("f32".into()); }
-    fn gen(r: &mut Rng, _d: usize) -> Self { let f = nice_f64(r) as f32; if f.is_nan() { 2.5 } else { f } }
+    fn gen(r: &mut Rng, _d: usize) -> Self {
+        // now and then a value at which conversions through another representation go wrong: 0x15ae43fd is the one f32
+        // (up to sign) whose shortest decimal, read as a double, lies exactly half way between two f32s
+        if r.chance(1, 3) { return f32::from_bits(*r.pick(&[0x15ae43fdu32, 0x95ae43fd, 0x15ae43fd, 0x3dcccccd, 0x00800000, 0x00000001, 0x7f7fffff, 0x4b800001, 0x33800000])); }
+        let f = nice_f64(r) as f32; if f.is_nan() { 2.5 } else { f }
+    }
     fn enc(&self, out: &mut Vec<String>) { out.push(if self.is_nan() { "Dnan".into() } else { format!("D{:016x}", f64::from(*self).to_bits()) }); }
     fn dec<'a, I: Iterator<Item = &'a str>>(it: &mut I) -> Self { f64::from_bits(u64::from_str_radix(&it.next().unwrap()[1..], 16).unwrap()) as f32 }
 }
@@ -528,11 +533,13 @@ pub fn generate(family: &str, r: &mut Rng, count: usize, emit: &mut dyn FnMut(St
                     }
                 }
                 // a long string / symbol / byte vector where something else is expected: error reporting quotes or
-                // measures the offending value; multi-byte characters sit at every alignment around the 64th byte
+                // measures the offending value; multi-byte characters sit at every alignment around the byte offsets at
+                // which an excerpt might be cut (8, 16, 24, 32, 40, 48, 64, 80, 96, 128, 256)
                 if i % 4 == 0 {
                     let pad = r.below(4);
                     let unit = *r.pick(&["é", "€", "😀", "λx", "a"]);
-                    let body = format!("{}{}", "a".repeat(60 + pad), unit.repeat(3 + r.below(30)));
+                    let base = *r.pick(&[4usize, 12, 20, 28, 36, 44, 44, 60, 60, 76, 92, 124, 252]);
+                    let body = format!("{}{}", "a".repeat(base + pad), unit.repeat(3 + r.below(30)));
                     let long = match r.below(4) { 0 => Value::string(body.as_str()), 1 => Value::symbol(body.as_str()), 2 => Value::keyword(body.as_str()), _ => Value::from(body.as_bytes()) };
                     emit(format!("de {} {} ;; {}", e.name, ty, enc_value_text(&long)));
                     emit(format!("de {} {} ;; {}", e.name, ty, enc_value_text(&Value::list(vec![long.clone(), long]))));
